@@ -13,6 +13,7 @@ import select as _select
 import socket as _socket
 import threading
 import time as _time
+import weakref
 
 
 class Hang(BaseException):
@@ -52,8 +53,9 @@ class World:
         self.select_latency = select_latency
         self.ops = 0
         self.log = []                      # flat event log
-        self.conns = []                    # every VSocket that attempted a connection (in order)
-        self.sockets = []                  # every VSocket created
+        self.conns = []                    # one ConnRec per connection attempt (in order)
+        self._sockets = []                 # weak references to every VSocket created (the tool's references decide their lifetime)
+        self.nsockets = 0
         self.sites = []                    # fault sites seen (dicts)
         self.sched = None
         self.lock = threading.Lock()
@@ -124,8 +126,25 @@ class World:
             raise _socket.gaierror(-9, 'Address family for hostname not supported')
         return out
 
+    @property
+    def sockets(self):
+        return [s for s in (r() for r in self._sockets) if s is not None]
+
     def open_socket_count(self):
         return sum(1 for s in self.sockets if not s.closed)
+
+
+class ConnRec:
+    """What the environment saw of one connection attempt (kept after the socket object is gone)."""
+    __slots__ = ('fd', 'family', 'addr', 'blocking', 'sent', 'established', 'conn_index')
+
+    def __init__(self, sock, addr):
+        self.fd = sock.fd
+        self.family = sock.family
+        self.addr = addr
+        self.blocking = sock.blocking
+        self.sent = sock.sent
+        self.established = False
 
 
 class VSocket:
@@ -144,8 +163,20 @@ class VSocket:
         self.sent = bytearray()
         self.pending_accept = collections.deque()
         self.connect_error_pending = None
-        world.sockets.append(self)
+        world._sockets.append(weakref.ref(self))
+        world.nsockets += 1
         world.event('socket', self.fd, int(family))
+
+    def __del__(self):
+        # a socket object that is garbage collected is closed by the interpreter
+        try:
+            if not self.closed:
+                self.closed = True
+                self.world.event('close', self.fd, 'gc')
+                if self.conn is not None:
+                    self.conn.tool_closed()
+        except Exception:
+            pass
 
     # -- options
     def settimeout(self, t):
@@ -180,8 +211,9 @@ class VSocket:
             raise OSError(errno.EBADF, 'Bad file descriptor')
         self.addr = addr
         ip, port = addr[0], addr[1]
-        w.conns.append(self)
-        self.conn_index = len(w.conns) - 1
+        self.rec = ConnRec(self, addr)
+        w.conns.append(self.rec)
+        self.conn_index = self.rec.conn_index = len(w.conns) - 1
         srv = w.servers.get((ip, port))
         w.event('connect', self.fd, ip, port, int(self.family))
         if srv is None:
@@ -192,6 +224,8 @@ class VSocket:
         if res == 'timeout':
             return 'timeout'
         self.conn = res
+        self.rec.established = True
+        w.event('established', self.fd)
         return 0
 
     def connect(self, addr):
@@ -321,8 +355,10 @@ class VSocket:
         c = VSocket(w, self.family, _socket.SOCK_STREAM)
         c.conn = client.make_conn(w, c)
         c.addr = client.addr
-        w.conns.append(c)
-        c.conn_index = len(w.conns) - 1
+        c.rec = ConnRec(c, client.addr)
+        c.rec.established = True
+        w.conns.append(c.rec)
+        c.conn_index = c.rec.conn_index = len(w.conns) - 1
         w.event('accept', c.fd, client.addr[0], client.addr[1])
         return c, client.addr
 
